@@ -208,6 +208,10 @@ func (server *SugarDB) handleCommand(ctx context.Context, message []byte, conn *
 		return res, err
 	}
 
+	// In a cluster the command is not executed here but by the state machine (or not at all): this
+	// goroutine's mutation is over, a state copy (raft snapshot) must not wait for it for ever.
+	server.stateMutationInProgress.Store(false)
+
 	// Handle other commands that need to be synced across the cluster
 	if server.raft.IsRaftLeader() {
 		var res []byte
